@@ -1,7 +1,7 @@
 #!/bin/bash
 # sweep.sh <tier> <seed>...: run the shared cluster engine on the unchanged tree for several seeds and list every violated formula
 ROOT=$(cd "$(dirname "$0")/.." && pwd); cd $ROOT
-TIER=$1; shift
+mkdir -p .run .cache; TIER=$1; shift
 for s in "$@"; do
   VERIF_SEED=$s bin/check C01 --tier $TIER > .run/sweep_$s.txt 2>&1; e=$?
   python3 - $s $e <<'PY'
